@@ -90,6 +90,12 @@ class World:
         priv = Class("Priv", fields=[Field(T["int"], "pv", I(1))], ctors=[Ctor([], [], default=True, vis="private")],
                      methods=[Method("mk", [], C("Priv"), [Ret(New("Priv"))], static=True)])
         ks = [Class("K_" + t, fields=[Field(T["int"], "z", I(0))], ctors=[Ctor([Param(T[t], "v")], [])]) for t in SINK_T]
+        box = Class("Box", fields=[Field(P("T"), "v")], ctors=[Ctor([Param(P("T"), "x")], [Expr(FAsg(This(), "v", Var("x")))])],
+                    methods=[Method("get", [], P("T"), [Ret(Fld(This(), "v"))])], tparams=["T"])
+        lbox = Class("LBox", base="Box", fields=[Field(T["int"], "l", I(1))], ctors=[Ctor([Param(P("U"), "x")], [Super(Var("x"))])],
+                     tparams=["U"], base_targs=[P("U")])
+        ibox = Class("IBox", base="Box", ctors=[Ctor([], [Super(I(4))])], base_targs=[P("int")])
+        ks = ks + [box, lbox, ibox]
         funcs = [Func("fi", [], T["int"], [Ret(I(1))]), Func("fv", [], VOID, []), Func("mkb", [], C("Base"), [Ret(New("Base"))]),
                  Func("mkd", [], C("Derived"), [Ret(New("Derived"))])]
         funcs += [Func("id_" + t, [Param(T[t], "v")], T[t], [Ret(Var("v"))]) for t in SINK_T]
@@ -725,10 +731,53 @@ def hierarchies(rnd, full):
     return out
 
 
+def generics():
+    """F8: instantiations of generic classes are distinct types, related only through the declared base type arguments"""
+    out = []
+    GT = {"BoxI": C("Box", [P("int")]), "BoxF": C("Box", [P("float")]), "BoxB": C("Box", [C("Base")]), "BoxD": C("Box", [C("Derived")]),
+          "LBoxI": C("LBox", [P("int")]), "LBoxF": C("LBox", [P("float")]), "IBox": C("IBox"), "Base": C("Base")}
+    SRC = {"BoxI": New("Box", I(1), targs=[P("int")]), "BoxF": New("Box", F(3, 2), targs=[P("float")]), "BoxB": New("Box", Var("ob"), targs=[C("Base")]),
+           "BoxD": New("Box", Var("od"), targs=[C("Derived")]), "LBoxI": New("LBox", I(2), targs=[P("int")]),
+           "LBoxF": New("LBox", F(5, 2), targs=[P("float")]), "IBox": New("IBox"), "null": Null(), "Base": Var("ob"), "int": I(3)}
+    for tn, T_ in GT.items():
+        for sn, src in SRC.items():
+            for via_local in (False, True):
+                pre_s = []
+                e = copy.deepcopy(src)
+                if via_local and sn in GT:
+                    pre_s = [Decl(GT[sn], "gsrc", copy.deepcopy(src))]
+                    e = Var("gsrc")
+                elif via_local:
+                    continue
+                tag = "%s:%s:%s" % (tn, sn, "var" if via_local else "expr")
+                w = World().fill("main", pre_s + [Decl(T_, "r0", e)])
+                out.append(case("gen:init:" + tag, "type", w, "%s into an initialiser of type %s" % (sn, tn)))
+                good = SRC[tn] if tn in SRC else Null()
+                w = World().fill("m_base", pre_s + [Decl(T_, "r0", copy.deepcopy(good)), Expr(Asg("r0", copy.deepcopy(e)))])
+                out.append(case("gen:assign:" + tag, "type", w, "%s assigned to a variable of type %s" % (sn, tn)))
+                w = World().fill("main", pre_s + [Expr(Call("gtake", copy.deepcopy(e)))])
+                w.funcs.append(Func("gtake", [Param(T_, "v")], TY["int"], [Ret(I(0))]))
+                out.append(case("gen:arg:" + tag, "type", w, "%s passed to a parameter of type %s" % (sn, tn)))
+                w = World()
+                w.funcs.append(Func("gret", [], T_, pre() + pre_s + [Ret(copy.deepcopy(e))]))
+                out.append(case("gen:return:" + tag, "type", w, "%s returned as %s" % (sn, tn)))
+                w = World().fill("main", pre_s + [Decl(C("GH"), "gh", New("GH")), Expr(FAsg(Var("gh"), "slot", copy.deepcopy(e)))])
+                w.classes.append(Class("GH", fields=[Field(T_, "slot")], ctors=[Ctor([], [], default=True)]))
+                out.append(case("gen:field:" + tag, "type", w, "%s stored into a field of type %s" % (sn, tn)))
+    # members of instantiations have the substituted types
+    for tn, member_t, ok in (("BoxI", "int", True), ("BoxF", "int", False), ("BoxB", "Base", True), ("BoxD", "Base", True), ("BoxB", "Derived", False),
+                             ("LBoxF", "float", True), ("LBoxF", "int", False), ("IBox", "int", True), ("IBox", "str", False)):
+        for how in ("field", "method"):
+            e = Fld(Var("gx"), "v") if how == "field" else MCall(Var("gx"), "get")
+            w = World().fill("main", [Decl(GT[tn], "gx", copy.deepcopy(SRC[tn])), Decl(TY[member_t], "r0", e)])
+            out.append(case("gen:member:%s:%s:%s" % (tn, member_t, how), "type", w, "%s of a %s read as %s" % (how, tn, member_t)))
+    return out
+
+
 def all_cases(seed, tier):
     rnd = random.Random(seed)
     full = tier != "quick"
-    cs = positions(rnd, full) + type_matrix(rnd, full) + final_fields() + declarations() + scopes() + returns() + hierarchies(rnd, full)
+    cs = positions(rnd, full) + type_matrix(rnd, full) + final_fields() + declarations() + scopes() + returns() + hierarchies(rnd, full) + generics()
     # whole-program declaration orders for a sample of the other cases
     extra = []
     pool = [c for c in cs if c["order"] is None]
